@@ -328,6 +328,13 @@ def run_child(prop: str, tier: str, shard: int, nshards: int, out: str, budget_s
     status = "ok"
     try:
         load_joserfc()
+        if "refjose" in sys.modules:
+            # the check leans on the reference implementation: its vectors and curve constants are re-checked in every shard first
+            from refjose import selfcheck
+            sc = selfcheck.run()
+            if sc["failed"]:
+                raise Inconclusive(f"refjose self-check failed: {sc['failed'][:3]}")
+            ctx.extra.setdefault("reference_vectors_reproduced", sc["reproduced"])
         mod.run_shard(ctx)
     except Inconclusive as e:
         ctx.inconclusive.append(str(e))
